@@ -13,6 +13,11 @@ r = subprocess.run(["git", "-C", "/repo", "apply", os.path.join(d, "patch.diff")
 if r.returncode != 0:
     print("patch does not apply"); sys.exit(2)
 res = {}
+# the evidence files describe runs against /repo itself: what a run against a changed tree writes is put back afterwards
+saved = {}
+for p in props:
+    ef = os.path.join(VERIF, "evidence", p + ".json")
+    saved[ef] = open(ef).read() if os.path.exists(ef) else None
 try:
     for p in props:
         pr = subprocess.run([sys.executable, os.path.join(VERIF, "tools", "check.py"), p, "--tier", "quick"], cwd=VERIF, stdout=subprocess.PIPE, stderr=subprocess.PIPE, text=True)
@@ -26,5 +31,8 @@ try:
                 print("      " + "\n      ".join(open(rp).read().split("\n")[:6]))
 finally:
     subprocess.run(["git", "-C", "/repo", "checkout", "--", "."])
+    for ef, txt in saved.items():
+        if txt is not None:
+            open(ef, "w").write(txt)
 meta["detected_by"] = {p: ("exit %d; %s" % (v["rc"], "; ".join(v["violations"])[:400])) for p, v in res.items()}
 json.dump(meta, open(os.path.join(d, "meta.json"), "w"), indent=1)
